@@ -360,6 +360,41 @@ def run_case(case):
             sr3.close()
             nchunks = len(__import__("json").loads(fc.with_suffix(".ch").read_text())["chunk_bounds"]) - 1
             cbin_bytes, ch_bytes = fc.read_bytes(), fc.with_suffix(".ch").read_bytes()
+            # ---- a chunk silently damaged on its way to the output file of an in-place decompression (nothing raised while writing): whatever the
+            #      call does about it, the compressed source may only go if the .bin is the recording
+            kd = int(rng.integers(0, nchunks))
+            orig_dcs = mtscomp.Reader.decompress_chunks
+
+            def dcs(self, chunk_ids, pool=None, _k=kd):
+                out_ = orig_dcs(self, chunk_ids, pool=pool)
+                if _k in out_:
+                    a_ = np.array(out_[_k])
+                    a_.reshape(-1)[a_.size // 2] ^= 0x155
+                    out_[_k] = a_
+                    res.count("silent_write_faults_injected")
+                return out_
+            b.unlink(missing_ok=True)
+            mtscomp.Reader.decompress_chunks = dcs
+            raised = None
+            try:
+                srd = spikeglx.Reader(fc, **kw)
+                try:
+                    srd.decompress_file(keep_original=False)
+                except Exception as e:
+                    raised = type(e).__name__
+                finally:
+                    srd.close()
+            finally:
+                mtscomp.Reader.decompress_chunks = orig_dcs
+            labd = f"{label}: decompress_file(keep_original=False) with chunk {kd}/{nchunks} silently damaged while written (raised: {raised})"
+            src_ok = fc.exists() and fc.read_bytes() == cbin_bytes and fc.with_suffix(".ch").exists()
+            bin_ok = b.exists() and b.read_bytes() == src_bytes
+            res.check(src_ok or bin_ok, "inplace-decompress:silent-fault:recording-lost", f"{labd}: the compressed source is gone and the .bin is not the recording")
+            if b.exists() and not bin_ok:
+                b.unlink()
+            if not fc.exists():
+                fc.write_bytes(cbin_bytes)
+                fc.with_suffix(".ch").write_bytes(ch_bytes)
             for variant in ("prefix", "same-size", "interrupted"):
                 log.events.clear()
                 if variant == "prefix":
